@@ -73,6 +73,43 @@ Theorem c14_success_monotone : forall W wzero fexpr s k code w s' tk c c',
 Proof. exact success_toward. Qed.
 Print Assumptions c14_success_monotone.
 
+(* Completion info as gRPC fills it: BytesSent / BytesReceived / Trailer / ServerLoad play no role -- two
+   DoneInfos with the same Err have exactly the same effect on every counter ... *)
+Theorem c14_done_ignores_transport_flags : forall W wzero fexpr s k (i1 i2 : doneinfo) w,
+  d_err i1 = d_err i2 -> done_info W wzero fexpr s k i1 w = done_info W wzero fexpr s k i2 w.
+Proof. intros W wzero fexpr s k i1 i2 w H. unfold done_info. rewrite H. reflexivity. Qed.
+Print Assumptions c14_done_ignores_transport_flags.
+
+(* ... so a backend that ANSWERS with an unacceptable status (bytes sent and received, trailer present) moves
+   its score toward 0 exactly like a call that never reached it; an acceptable answer moves it toward 1000. *)
+Theorem c14_error_answer_lowers_score : forall W wzero fexpr s k info w s' tk c c' code,
+  d_err info = Some code ->
+  done_info W wzero fexpr s k info w = Ok s' -> nth_error (tokens s) k = Some tk ->
+  nth_error (conns s) (t_conn tk) = Some c -> nth_error (conns s') (t_conn tk) = Some c' ->
+  0 <= success c <= 1000 ->
+  (acceptable code = false -> 0 <= success c' <= success c) /\
+  (acceptable code = true -> success c <= success c' <= 1000).
+Proof.
+  intros W wzero fexpr s k info w s' tk c c' code He Hd Ht Hc Hc' Hr. unfold done_info in Hd. rewrite He in Hd.
+  pose proof (success_toward W wzero fexpr s k (Some code) w s' tk c c' Hd Ht Hc Hc') as T.
+  unfold toward, target_of, initSuccess in T. split; intro Ha; rewrite Ha in T; lia.
+Qed.
+Print Assumptions c14_error_answer_lowers_score.
+
+(* ... and, with a weight < 1, lowers a positive score by at least one point whatever the flags say: the step
+   behind the bounded-unhealthy theorem (c14_all_fail_unhealthy_within_500 quantifies over Done ops, i.e. over
+   every DoneInfo with that Err). *)
+Theorem c14_error_answer_strictly_lowers : forall W wzero fexpr (lt1 : W -> Prop),
+  (forall w o, lt1 w -> 0 < o -> fexpr w o 0 < o) -> lt1 wzero ->
+  forall t start (info : doneinfo) code w c,
+  d_err info = Some code -> acceptable code = false -> lt1 w -> 0 <= success c ->
+  success (done_conn W wzero fexpr t start (d_err info) w c) <= Z.max 0 (success c - 1).
+Proof.
+  intros W wzero fexpr lt1 Hdec H0 t start info code w c He Ha Hw Hs. rewrite He.
+  eapply fail_conn; eauto. unfold target_of. rewrite Ha. reflexivity.
+Qed.
+Print Assumptions c14_error_answer_strictly_lowers.
+
 (* ... and nothing else moves a score or a latency estimate: other connections' completions and picks leave them. *)
 Theorem c14_success_only_own_completion : forall W wzero fexpr fsqrt,
   (forall s k code w s' tk j c c',
